@@ -32,6 +32,9 @@ func init() {
 		if p.Level == -4 {
 			ss = libPrefixStreams()
 		}
+		if p.Level == -5 {
+			ss = walkStreams()
+		}
 		for _, s := range ss {
 			if s.Name == p.Stream {
 				c05Cut(r, s, p.Level, p.Cut, newSiteMap(s))
@@ -172,6 +175,13 @@ func runC05(r *core.Run) {
 		sm := newSiteMap(s)
 		for k := 0; k < len(s.Data); k++ {
 			jobs = append(jobs, job{s, k, sm, -3})
+		}
+		r.Trace(1)
+	}
+	for _, s := range walkStreams() {
+		sm := newSiteMap(s)
+		for k := 0; k < len(s.Data); k++ {
+			jobs = append(jobs, job{s, k, sm, -5})
 		}
 		r.Trace(1)
 	}
